@@ -253,8 +253,8 @@ class Executor:
     def val(self, name, sort=C.VAL):
         return self.st.fresh_sym(name, sort, is_input=True)
 
-    def assume(self, z):
-        self.st.assume(z)
+    def assume(self, z, name=None):
+        self.st.assume(z, name=name)
 
     def oblige(self, name, z, **kw):
         self.st.oblige(name, z, **kw)
@@ -275,6 +275,12 @@ class Executor:
         if z3.is_false(z):
             return False
         if z3.is_true(z):
+            return True
+        # cheap first: the path condition alone (plus per-query theory facts)
+        v, *_ = prove(self.st.pc, [], z3.Not(z), timeout_ms=2000, quick=True)
+        if v == "unsat":
+            return False
+        if not self.st.qfacts:
             return True
         v, *_ = prove(self.st.pc, self.st.qfacts, z3.Not(z), extra_pool=list(self.st.pool) + list(extra_pool), timeout_ms=4000, quick=True)
         return v != "unsat"
@@ -654,17 +660,24 @@ class Executor:
         if len(n.generators) != 1:
             return None
         g = n.generators[0]
-        if g.ifs or not isinstance(g.target, ast.Name) or not _is_pure(n.elt):
+        if not isinstance(g.target, ast.Name) or not _comp_elt_ok(n.elt):
+            return None
+        # `... if cond` filters: only through a library hook (lib/ext_sched.py: the filtered list
+        # is consumed by np.sum as a fold); without the hook the comprehension is iterated concretely
+        fhook = getattr(self.shared.lib, "filtered_comp_hook", None) if g.ifs else None
+        if g.ifs and (fhook is None or not _is_pure(n.elt) or not all(_is_pure(c) for c in g.ifs)):
             return None
         it = g.iter
         if not (isinstance(it, ast.Call) and isinstance(it.func, ast.Name) and it.func.id == "range"
-                and not it.keywords and all(_is_pure(a) for a in it.args)):
+                and not it.keywords and all(_is_pure(a) or (fhook is not None and _is_pure_minmax(a)) for a in it.args)):
             return None
         rng = self.shared.lib.as_symbolic_range(self, self.eval(it, fr))
         if rng is None:
             return None
         lo, hi = rng
         iv = self.st.fresh("lc", INT)
+        if fhook is not None:
+            return fhook(self, n, g, fr, lo, hi, iv)
         f = Frame(fr.qualname, fr.module, parent=fr)
         f.vars[g.target.id] = Sym(iv)
         return C.SymComp(lo, hi, iv, self.eval(n.elt, f))
@@ -887,6 +900,8 @@ class Executor:
 
         if isinstance(v, Anything):
             return Anything(f"{v.tag}[]")
+        if isinstance(v, C.OpaqueList):
+            raise Unsupported("subscript on a list with unknown contents (appended to inside a cut loop)")
         if isinstance(v, (list, tuple)):
             if isinstance(idx, slice):
                 return v[self._cslice(idx)]
@@ -988,6 +1003,8 @@ class Executor:
     def iterate(self, v):
         from .tensor import Tensor
 
+        if isinstance(v, C.OpaqueList):
+            raise Unsupported("iteration over a list with unknown contents (appended to inside a cut loop)")
         if isinstance(v, (list, tuple, set, frozenset)):
             return list(v)
         if isinstance(v, dict):
@@ -1473,6 +1490,11 @@ class Executor:
                     fr.vars[t] = last
                 else:
                     fr.vars[t] = C.ite(C.compare(">", it, lo), last, prev)
+        if getattr(spec, "opaque_lists", False):
+            # python lists the body appends to: contents unknown at an arbitrary iteration (and after the loop)
+            for name in sorted(_appended_names(s.body)):
+                if isinstance(fr.vars.get(name), list) and not isinstance(fr.vars[name], C.OpaqueList):
+                    fr.vars[name] = C.OpaqueList()
         if not discover:
             self._assume_inv(spec, L, tag)
         # (iii) condition
@@ -1535,7 +1557,10 @@ class Executor:
                 zz = z3.simplify(C.as_bool(z))
                 if z3.is_true(zz):
                     continue
-                v, *_ = prove(self.st.pc, self.st.qfacts, zz, extra_pool=self.st.pool, timeout_ms=5000)
+                # spec.cand_qfacts = False: scalar candidates are checked without the quantified
+                # hypotheses (fewer hypotheses: sound, and much cheaper when array invariants are around)
+                qf = self.st.qfacts if getattr(spec, "cand_qfacts", True) else []
+                v, *_ = prove(self.st.pc, qf, zz, extra_pool=self.st.pool, timeout_ms=5000)
                 if v != "unsat":
                     self.shared.houdini_dead.setdefault(L.key, set()).add(name)
 
@@ -1631,6 +1656,40 @@ def _handler_matches(tnode, exc_type):
     if "Exception" in names or "BaseException" in names:
         return True
     return exc_type in names
+
+
+def _appended_names(stmts):
+    """names X with a call `X.append(...)` in a statement list (nested defs excluded)"""
+    out = set()
+    for s in stmts:
+        for n in ast.walk(s):
+            if isinstance(n, ast.Call) and isinstance(n.func, ast.Attribute) and n.func.attr == "append" and isinstance(n.func.value, ast.Name):
+                out.add(n.func.value.id)
+    return out
+
+
+def _comp_elt_ok(node):
+    """element expression of a comprehension over a symbolic range: pure, or itself a
+    comprehension `[elt for x in range(pure...)]` of such an element (nested tables)"""
+    if _is_pure(node):
+        return True
+    if isinstance(node, ast.ListComp) and len(node.generators) == 1:
+        g = node.generators[0]
+        it = g.iter
+        return (not g.ifs and isinstance(g.target, ast.Name) and isinstance(it, ast.Call) and isinstance(it.func, ast.Name)
+                and it.func.id == "range" and not it.keywords and all(_is_pure(a) for a in it.args) and _comp_elt_ok(node.elt))
+    return False
+
+
+def _is_pure_minmax(node):
+    """pure except for calls of the builtins max / min on pure arguments"""
+    for n in ast.walk(node):
+        if isinstance(n, ast.Call):
+            if not (isinstance(n.func, ast.Name) and n.func.id in ("max", "min") and not n.keywords):
+                return False
+        elif isinstance(n, (ast.NamedExpr, ast.Await, ast.Yield, ast.YieldFrom)):
+            return False
+    return True
 
 
 def _is_pure(node):
